@@ -17,6 +17,7 @@ import (
 	"errors"
 	"fmt"
 	"io"
+	"math/rand"
 	"strings"
 	"testing"
 
@@ -533,6 +534,43 @@ func (h *harness) run(d caseDesc) (outcome string) {
 		if len(msg.Answer) > 1 {
 			rec.Stat("ok_identical_multi_record", 1)
 			rec.StatMax("answer_records_ok:"+d.Qtype, int64(len(msg.Answer)))
+			// Resolvers rotate and shuffle the records of an answer (round robin): that is what the order
+			// tags are for. The same answer with its records in another order must decode to the same
+			// response (or fail in a reported way), never to a silently different one.
+			for _, mode := range []string{"rotate", "reverse", "shuffle"} {
+				m3 := m2.Copy()
+				a := m3.Answer
+				switch mode {
+				case "rotate":
+					a = append(append([]dns.RR{}, a[1:]...), a[0])
+				case "reverse":
+					for i, j := 0, len(a)-1; i < j; i, j = i+1, j-1 {
+						a[i], a[j] = a[j], a[i]
+					}
+				case "shuffle":
+					r := rand.New(rand.NewSource(int64(d.Key)*31 + int64(d.Len)))
+					r.Shuffle(len(a), func(i, j int) { a[i], a[j] = a[j], a[i] })
+				}
+				m3.Answer = a
+				var got2 commands.Response
+				var err2 error
+				p2, site2, pval2 := vcommon.Guard(func() { got2, err2 = cli.DecodeDnsResponseWithParams(m3, codec) })
+				rec.Stat("reordered_answers_decoded", 1)
+				if p2 {
+					sig := fmt.Sprintf("%s:panic@%s:stage=decode:answer-section-reordered", d.Qtype, site2)
+					rec.Violation(sig, mkdesc(), observed(map[string]interface{}{"panic": pval2, "order": mode}))
+					return "VIOLATION " + sig
+				}
+				if err2 != nil {
+					rec.Stat("reordered_answers_reported_failure", 1)
+					continue
+				}
+				if diff2, _ := same(want, got2); diff2 != "" {
+					sig := fmt.Sprintf("%s:silent-diff:layer=records:answer-section-reordered", cell)
+					rec.Violation(sig, mkdesc(), observed(map[string]interface{}{"differs_in": diff2, "decoded": describe(got2), "order": mode}))
+					return "VIOLATION " + sig
+				}
+			}
 		}
 		return fmt.Sprintf("identical (%d answer records, %d wire bytes): %s", len(msg.Answer), len(wire), describe(got))
 	}
